@@ -1,6 +1,6 @@
 /-
 C13 — analytic BER and receiver-noise formulas match closed forms and each other.
-Property theorems only (helper lemmas: `Lemmas/Ber.lean`, `Lemmas/BerAlg.lean`, `Lemmas/BerGauss.lean`, `Lemmas/BerSoft.lean`, `Lemmas/Pd.lean`).
+Property theorems only (helper lemmas: `Lemmas/Ber.lean`, `Lemmas/BerAlg.lean`, `Lemmas/BerGauss.lean`, `Lemmas/BerSoft.lean`, `Lemmas/BerConv.lean`, `Lemmas/Pd.lean`).
 
 The objects are the generic definitions of `Model/Ber.lean` read at `R := ℝ` — the same definitions the driver runs at `Float`
 against `ook.py`, `ppm.py`, `utils.py`.  The Gaussian tail is a parameter `Q` with `QSpec Q` (antitone, `Q x + Q (-x) = 1`,
@@ -12,6 +12,7 @@ model (both code paths: `average_voltages`/`noise_variances` and the inner funct
 import OptiVerif.Lemmas.BerGauss
 import OptiVerif.Lemmas.BerSoft
 import OptiVerif.Lemmas.BerAlg
+import OptiVerif.Lemmas.BerConv
 import OptiVerif.Lemmas.Pd
 
 set_option linter.unusedVariables false
@@ -507,11 +508,33 @@ theorem p_ase_eq_edfa (x : Rx ℝ) (c wavelength fs : ℝ) (hamp : x.amplify = t
 
 /-! ### the full statement: what remains unproved -/
 
-/-- clauses of C13 that are NOT theorems here (decided by the oracle on every run): the Gaussian-convolution closed form of the
-    soft decision for `M = 2`, soft ≤ hard, and the location of the true minimum for equal sigmas -/
+/-- **soft_M2**: with the Gaussian tail for `Q`, `ppm.theory_BER(μ, s0, s1, M=2, 'soft')` evaluated on the exact value of the
+    integral it hands to `quad` is `Q(μ/√(s0²+s1²))` (the error probability `P(s0·Z0 − s1·Z1 > μ)` of two independent
+    Gaussians); the same holds for the soft-decision estimator with `μ = I1 − I0` -/
+theorem soft_M2 (mu s0 s1 : ℝ) (hs0 : 0 < s0) (hs1 : 0 < s1) :
+    softFrom (∫ x, softIntegrand gQ 2 mu s0 s1 x) = gQ (mu / Real.sqrt (s0 ^ 2 + s1 ^ 2)) ∧
+      ppmTheory gQ 2 .soft mu s0 s1 (∫ x, softIntegrand gQ 2 mu s0 s1 x) = .ok (some (gQ (mu / Real.sqrt (s0 ^ 2 + s1 ^ 2)))) ∧
+      ∀ mu0, ppmEstimator gQ 2 .soft mu0 (mu0 + mu) s0 s1 (∫ x, softIntegrand gQ 2 (mu0 + mu - mu0) s0 s1 x) =
+        .ok (some (gQ (mu / Real.sqrt (s0 ^ 2 + s1 ^ 2)))) := by
+  have h := soft_M2_aux mu s0 s1 hs0 hs1
+  have hp : isPow2 2 = true := by decide
+  refine ⟨h, ?_, ?_⟩
+  · simp only [ppmTheory, hp, Bool.not_true, Bool.false_eq_true, if_false, h, ppmFactorTheory, half_real, lit_real]
+    norm_num
+    ring
+  · intro mu0
+    have : mu0 + mu - mu0 = mu := by ring
+    rw [this]
+    simp only [ppmEstimator, hp, Bool.not_true, Bool.false_eq_true, if_false, h, ppmFactorEst, lit_real]
+    norm_num
+
+/-! ### the full statement: what remains unproved -/
+
+/-- clauses of C13 that are NOT theorems here (decided by the oracle on every run): soft ≤ hard for every `M`, and the location
+    of the true minimum for equal sigmas (needs convexity of the Gaussian tail on `[0, ∞)`) -/
 def C13_full_unproved : Prop :=
-  (∀ mu s0 s1 : ℝ, 0 < s0 → 0 < s1 →
-      softFrom (∫ x, softIntegrand gQ 2 mu s0 s1 x) = gQ (mu / Real.sqrt (s0 ^ 2 + s1 ^ 2))) ∧
-    (∀ mu s r : ℝ, 0 < s → 0 ≤ mu → gQ (mu / (2 * s)) ≤ 1 / 2 * ookSum gQ mu s s r)
+  (∀ mu s r : ℝ, 0 < s → 0 ≤ mu → gQ (mu / (2 * s)) ≤ 1 / 2 * ookSum gQ mu s s r) ∧
+    (∀ (M : ℕ) (mu s0 s1 r : ℝ), 2 ≤ M → 0 < s0 → 0 < s1 → 0 ≤ mu →
+      softFrom (∫ x, softIntegrand gQ M mu s0 s1 x) ≤ 1 - gQ ((r - mu) / s1) * (1 - gQ (r / s0)) ^ (M - 1))
 
 end OptiVerif.Props.C13
